@@ -1,6 +1,7 @@
 import GPVerif.Model.BatchOps
+import GPVerif.Gen.BatchChoreo
 import GPVerif.Model.Proto
-open Bcast BatchOps
+open Bcast BatchOps Choreo
 
 /-! Line protocol of the C08 driver.  Shapes are comma separated in torch order (`-` = scalar shape `()`),
 arguments separated by `|`.  All tensors are `arange` tensors; replies list values in row-major order.
@@ -22,6 +23,9 @@ arguments separated by `|`.  All tensors are `arange` tensors; replies list valu
   expandin x | bs        _expand_inputs
   replica pb | db        per result batch element: (param slice, data slice)
   summll v1 v2 …         SumMarginalLogLikelihood of member values (exact rationals)
+  summllt s | v.. ; v..  the GENERATED SumMarginalLogLikelihood reduction on batched member values
+  rq dist | alpha | diag the GENERATED RQKernel alpha alignment (pairs)
+  (scale, scalediag, lsdiv, noise, mean, sumlast run the GENERATED op lists of Gen/BatchChoreo.lean)
 -/
 
 def commaNats (s : String) : Option (List Nat) :=
@@ -49,6 +53,19 @@ def step (line : String) : String :=
       | some vals =>
         Proto.showRat (sumMll (vals.map fun v (_ : Unit) (_ : Unit) => v) (vals.map fun _ => ()) (vals.map fun _ => ()))
       | none => "bad-request"
+    | "summllt", _ =>
+      -- summllt <shape> | r r r ; r r r ; …   (one rational list per member, row-major)
+      match (" ".intercalate rest).splitOn "|" with
+      | [sh, body] =>
+        match commaNats sh, ((body.splitOn ";").mapM fun m => (Proto.tokens m).mapM Proto.parseRat?) with
+        | some shape, some ms =>
+          let rs := ofTorch shape
+          let members : List (T Rat) := ms.map fun vals => T.ofFlat rs vals.toArray
+          match runSumMll Gen.BatchChoreo.sumMllOps members with
+          | some t => s!"shape={showNats (toTorch t.shape)};vals=" ++ " ".intercalate (t.toFlat.map Proto.showRat)
+          | none => "none"
+        | _, _ => "bad-request"
+      | _ => "bad-request"
     | "bcast", [some s, some t] =>
       match broadcastShapes s t with
       | some r => s!"shape={showNats r}"
@@ -66,25 +83,35 @@ def step (line : String) : String :=
       match T.map2 Prod.mk (ar s) (ar t) with
       | some r => showPairs r
       | none => "none"
+    -- from here on: the GENERATED op lists (Gen/BatchChoreo.lean) under the `Choreo` interpreter
     | "sumlast", [some s, some [k]] =>
       if k ≤ s.length then
-        let a := (ar s).viewSumLast k
-        let b := (ar s).sumInner k
-        s!"shape={showNats (toTorch a.shape)};flat={showNats a.toFlat};inner={showNats b.toFlat}"
+        -- k trailing dims are reduced, i.e. n = rank - k leading dims are kept (`res_ndim`)
+        match runParam Gen.BatchChoreo.exactPriorOps (ar s) [] [s.length - k],
+              runParam Gen.BatchChoreo.approxPriorOps (ar s) [] [s.length - k] with
+        | some a, some a' =>
+          let b := (ar s).sumInner k
+          s!"shape={showNats (toTorch a.shape)};flat={showNats a.toFlat};approx={showNats a'.toFlat};inner={showNats b.toFlat}"
+        | _, _ => "none"
       else "none"
     | "scale", [some k, some o] =>
-      match scaleMul Prod.mk (ar k) (ar o) with | some r => showPairs r | none => "none"
+      match runBinary Gen.BatchChoreo.scaleFullOps Prod.mk (ar k) (ar o) [] [] with | some r => showPairs r | none => "none"
     | "scalediag", [some k, some o] =>
-      match scaleMulDiag Prod.mk (ar k) (ar o) with | some r => showPairs r | none => "none"
+      match runBinary Gen.BatchChoreo.scaleDiagOps Prod.mk (ar k) (ar o) [] [] with | some r => showPairs r | none => "none"
     | "lsdiv", [some x, some l] =>
-      match lengthscaleDiv Prod.mk (ar x) (ar l) with | some r => showPairs r | none => "none"
+      match runBinary Gen.BatchChoreo.lengthscaleDivOps Prod.mk (ar x) (ar l) [] [] with | some r => showPairs r | none => "none"
+    | "rq", [some d, some a, some [dg]] =>
+      -- dist_mat shape | alpha shape | diag flag; the rank arguments are what the source may (wrongly) consult
+      let kbRank := a.length - 1
+      match runBinary (Gen.BatchChoreo.rqAlphaOps (dg != 0) false d.length kbRank) Prod.mk (ar d) (ar a) [] [] with
+      | some r => showPairs r | none => "none"
     | "noise", [some nz, some xb, some [n]] =>
       let noise : T Int := ⟨ofTorch nz, fun idx => (flat (ofTorch nz) idx : Nat)⟩
-      match homoNoise (-1 : Int) noise (ofTorch xb) n with
+      match runConstDiag Gen.BatchChoreo.homoNoiseOps (-1 : Int) noise [ofTorch xb] n with
       | some r => s!"shape={showNats (toTorch r.shape)};flat={showInts r.toFlat}"
       | none => "none"
     | "mean", [some c, some xn] =>
-      match constantMean (ar c) (ofTorch xn) with | some r => showT r | none => "none"
+      match runParam Gen.BatchChoreo.constantMeanOps (ar c) [ofTorch xn] [] with | some r => showT r | none => "none"
     | "expandin", [some x, some bs] =>
       if x.length ≥ 2 ∧ (bcastR ((ofTorch x).drop 2) (ofTorch bs) = some (ofTorch bs)) then showT (expandInputs (ar x) (ofTorch bs)) else "none"
     | "replica", [some pb, some db] =>
